@@ -82,3 +82,15 @@ Theorem C16_src_display : forall i : Index,
   gen_Index_display i = Ret (match i with Index_Num n => Dec.dec_of_N n | Index_Next => [45] end).
 Proof. exact gen_display_index. Qed.
 Print Assumptions C16_src_display.
+
+(* the error of a rejected character, read with the source's own accessors: it keeps the input, its offset is the CHARACTER
+   index of the first non-digit character, and char() returns that very character without panicking *)
+Theorem C16_src_invalid_character_error : forall (s : str) (e : InvalidCharacterError),
+  gen_Index_from_str s = Ret (Err (ParseIndexError_InvalidCharacter e)) ->
+  gen_InvalidCharacterError_source e = Ret s /\
+  chars_positionN (fun c => negb (is_digit c)) s = Some (InvalidCharacterError_offset e) /\
+  gen_InvalidCharacterError_offset e = Ret (InvalidCharacterError_offset e) /\
+  exists c, gen_InvalidCharacterError_char e = Ret c /\
+            nth_N (str_chars s) (InvalidCharacterError_offset e) = Some c /\ is_digit c = false.
+Proof. exact gen_invalid_character_error_accessors. Qed.
+Print Assumptions C16_src_invalid_character_error.
